@@ -40,6 +40,8 @@ class Prop:
         if form == "group_by_until":
             sc["pool"] = [ctx.new_source("cold", prefix="p", maxn=1, positive_first=True) for _ in range(2)]
         sc["sources"] = ctx.sources
+        if not part and rng.random() < 0.3:
+            sc["outer_take"] = rng.randrange(1, 4)  # the stream of groups is cut by take(k): the groups handed out so far live on
         off = rng.choice([None, None, None, 37, 123, 411])
         if off and not part:
             sc["sub2_t"] = 205 + off
@@ -50,11 +52,12 @@ class Prop:
         s = w.sources[sc["src"]]
         key = key_of(sc)
         em = (lambda v: ("m", v)) if sc["emap"] else None
+        cut = [ops.take(sc["outer_take"])] if sc.get("outer_take") else []
         if f == "group_by":
-            return s.pipe(ops.group_by(key, em))
+            return s.pipe(ops.group_by(key, em), *cut)
         if f == "group_by_until":
             pool = [w.sources[p] for p in sc["pool"]]
-            return s.pipe(ops.group_by_until(key, em, lambda g: pool[g.key % len(pool)]))
+            return s.pipe(ops.group_by_until(key, em, lambda g: pool[g.key % len(pool)]), *cut)
         m, r = sc["m"], sc["r"]
         if f == "partition":
             outs = s.pipe(ops.partition(lambda v: vt.h(v) % m == r))
@@ -91,19 +94,46 @@ class Prop:
             return
         key = key_of(sc)
         groups = {}
+        take = sc.get("outer_take")
+        st = {"outer_done": False, "n": 0, "visible": set()}
+
+        def stop_all():
+            eng.done = True
+            for s_ in eng.subs:
+                s_.cancel()
+
+        def emit_group(g):
+            if st["outer_done"]:
+                return  # nobody is listening for new groups any more; the group exists, unseen
+            st["n"] += 1
+            st["visible"].add(id(g))
+            if take and st["n"] == take:
+                eng.out.append((eng.now, "N", g))
+                eng.out.append((eng.now, "C", None))  # take(k) completes; the groups handed out keep the source alive
+                st["outer_done"] = True
+            else:
+                eng.emit("N", g)
+
+        def group_gone(g):
+            st["visible"].discard(id(g))
+            if st["outer_done"] and not st["visible"]:
+                stop_all()  # the last subscribed group is gone and the stream of groups was cut: the source is released
 
         def terminal(k, v=None):
             for g in list(groups.values()):
                 g.events.append((eng.now, k, v))
             groups.clear()
-            eng.emit(k, v)
+            if st["outer_done"]:
+                stop_all()
+            else:
+                eng.emit(k, v)
 
         def on_next(v):
             k = key(v)
             g = groups.get(k)
             if g is None:
                 g = groups[k] = MWin(eng.now)
-                eng.emit("N", g)
+                emit_group(g)
                 if f == "group_by_until":
                     holder = {}
 
@@ -116,6 +146,7 @@ class Prop:
                         if groups.get(k) is g:
                             del groups[k]
                             g.events.append((eng.now, "C", None))
+                            group_gone(g)
 
                     holder["s"] = eng.subscribe(sc["pool"][k % len(sc["pool"])], dh)
                     if eng.done:
